@@ -91,7 +91,7 @@ pub fn shard_run(prop: &str, tier: &str, seed: u64, replay: Option<&serde_json::
     order.sort_by_key(|i| std::cmp::Reverse(scns[*i].programs.iter().map(|p| p.len()).sum::<usize>() * 10 + if scns[*i].prefix == Prefix::NeverSeen { 5 } else { 0 }));
     for (rank, si) in order.iter().enumerate() {
         let scn = &scns[*si];
-        if prop == "C11" && !scn.name.contains("SNAP") {
+        if prop == "C11" && (!scn.name.contains("SNAP") || scn.prefix == Prefix::NeverSeen || scn.prefix == Prefix::Empty) {
             continue;
         }
         match &replay_scn {
